@@ -19,7 +19,10 @@ Definition url_pattern_match (o : is_url_opts) (s : str) : bool :=
 
 (* the tld_aware tail: has_valid_tld(parsed) or is_special_host(parsed.hostname) *)
 Definition tld_check (tlds : list str) (e : env) (s : str) : res bool :=
-  let* r := safe_urlsplit e s in
+  match safe_urlsplit e s with
+  | Exc ValueError => Ok false            (* the pattern accepted a string the parser rejects *)
+  | Exc x => Exc x
+  | Ok r =>
   let* ok := match hostname r with
              | None => Ok false
              | Some h => is_valid_tld_in tlds e (last_label h)
@@ -29,7 +32,8 @@ Definition tld_check (tlds : list str) (e : env) (s : str) : res bool :=
        | Some [] => Ok false
        | Some h => Ok (is_special_host h)
        | None => Ok false                 (* the pattern saw a host, the parser none *)
-       end.
+       end
+  end.
 
 Definition is_url_in (tlds : list str) (e : env) (o : is_url_opts) (string : str) : res bool :=
   let s := strip string in
